@@ -3,7 +3,7 @@
    _run.py/_prepare.py/adaptive.py), the declarative notions are in Model/FixedSpec.v. *)
 From Verif Require Import Base.Prelude Base.StrUtil Base.Index Base.NdArr Base.PyRange
   Model.MapSpec Model.MapSpecSpec Model.MapRun Model.SymBody.
-From Verif Require Import Proofs.IndexFacts Proofs.PyRangeFacts Proofs.MapResumeFacts.
+From Verif Require Import Proofs.IndexFacts Proofs.PyRangeFacts Proofs.MapResumeFacts Proofs.MapValuesFacts.
 From Verif Require Import Model.MapResume Model.FixedSpec.
 
 (* ---------------------------------------------------------------- Python slices / ints (Base/PyRange.v) *)
@@ -133,16 +133,43 @@ Example ex_pieces : exists storesM trM stF exF,
   /\ storesM = m_stores stF.
 Proof. do 4 eexists. split; [vm_compute; reflexivity|]. split; vm_compute; reflexivity. Qed.
 
-(* Full statement for whole pipelines (NOT proved; checked by the correspondence harness on every run through
-   spec_ok of Corr/Run_C06.v):
-     forall p inputs user parts, valid_request p inputs user ->
-       (every part has request_status = Valid) -> family_covers parts axes ->
-       the store after running the parts in any order = the store of map_run_sel .. None empty_store,
-       and the concatenated call logs have no duplicate.
-   What is proved about whole pipelines is C06_part_computes_exactly (which elements each part computes and
-   stores, for any pipeline) and C06_final_run_computes_nothing; what is missing is that the VALUES stored by
-   a part equal those of the full run, i.e. that a selected element reads only upstream elements that are
-   already present (this is where "no reduction over a fixed axis" is needed). *)
+(* Whole pipelines, any user functions: let F be the store of one uninterrupted full run.  A full run started on ANY
+   sub-store rs of F (every stored cell / value of rs is a cell / value of F – e.g. what runs of parts left behind)
+   ends, when it completes, with exactly the outputs of F in the store.  Together with
+   C06_part_computes_exactly (which elements a part computes and stores) this is pieces_eq_whole at store level.
+   Side conditions: unique output names, outputs of a generation are consumed only by later generations
+   (order_ok; true of every pipeline pipefunc accepts), every function is in some generation. *)
+Theorem C06_pieces_eq_whole_store : forall body (c : ctx) user rs psF psR,
+  (forall g f o, In g (x_p c) -> In f (x_p c) -> In o (fouts g) -> In o (fouts f) -> g = f) ->
+  all_shapes user (x_inputs c) (x_p c) = Ok (x_shapes c) ->
+  NoDup (flat_map fouts (concat (generations (x_p c)))) ->
+  order_ok [] (generations (x_p c)) ->
+  (forall g, In g (x_p c) -> In g (concat (generations (x_p c)))) ->
+  (forall f, In f (x_p c) -> is_mapped f = true -> exists ms sm, fspec f = Some ms /\ shape_of c f = Ok sm) ->
+  sized c rs ->
+  map_run_sel body (x_p c) (x_inputs c) user None empty_store = ROk psF ->
+  map_run_sel body (x_p c) (x_inputs c) user None rs = ROk psR ->
+  sub_store c rs (p_store psF) ->
+  forall f, In f (x_p c) -> same_outputs c (p_store psR) (p_store psF) f.
+Proof. exact run_on_substore_same_store. Qed.
+Print Assumptions C06_pieces_eq_whole_store.
+
+Definition ex2_g : mfunc :=
+  {| fname := s "g"; fouts := [s "t"]; fparams := [s "y"]; fbound := []; fdefaults := [];
+     fspec := None; fint := []; fret := [] |}.
+Example ex_order_ok : order_ok [] (generations [ex_f; ex2_g]).
+Proof.
+  vm_compute generations. cbn [order_ok app].
+  repeat split; intros h Hh g Hg o Ho Hq; cbn in Hh, Hg;
+    repeat match goal with H : _ \/ _ |- _ => destruct H | H : False |- _ => destruct H end; subst; cbn in Ho, Hq;
+    repeat match goal with H : _ \/ _ |- _ => destruct H | H : False |- _ => destruct H end; subst; try discriminate.
+Qed.
+
+(* What is still NOT proved for whole pipelines (checked on every run by spec_ok of Corr/Run_C06.v):
+   (a) that the run on the sub-store completes (ROk) whenever the uninterrupted run does;
+   (b) that after a VALID part (request_status = Valid) the store is a sub-store of F, i.e. that a selected element
+       reads only upstream elements that are present – this is where "no reduction over a fixed axis" enters;
+   (c) equality of the returned Result.output arrays (the theorem speaks about the store). *)
 
 (* ---------------------------------------------------------------- final_run_computes_nothing *)
 Theorem C06_final_run_computes_nothing_func : forall body f ms kw sh mask stores tr st existing,
